@@ -35,12 +35,13 @@ def surf_cfgs(tier):
         "symL_2x3": K.surface(2, 3, True),
         "full_2x3": K.surface(2, 3, False),
         "symR_2x3": K.surface(2, 3, True, right=True),
-        # three chordwise nodes: index patterns that silently assume nx == 2 (leading / trailing edge rows, panel offsets)
-        "symL_3x2": K.surface(3, 2, True),
+        # three chordwise nodes and two spanwise panels: index patterns that silently assume nx == 2 (leading / trailing edge
+        # rows, panel offsets, tile-vs-repeat orderings)
+        "symL_3x3": K.surface(3, 3, True),
     }
     if tier == "thorough":
         c.update({
-            "symL_3x3": K.surface(3, 3, True),
+            "symL_3x2": K.surface(3, 2, True),
             "symL_2x4": K.surface(2, 4, True),
             "full_3x3": K.surface(3, 3, False),
             "full_2x5": K.surface(2, 5, False),
@@ -55,6 +56,8 @@ def multi_cfgs(tier):
         "1symL_2x2": [K.surface(2, 2, True)],
         "1full_2x3": [K.surface(2, 3, False)],
         "symL_2x2+full_2x3": [K.surface(2, 2, True), K.surface(2, 3, False, name="tail")],
+        # a right-half symmetric surface with three chordwise nodes (spanwise flips of index patterns, chordwise offsets)
+        "1symR_3x2": [K.surface(3, 2, True, right=True)],
     }
     if tier == "thorough":
         c.update({
@@ -240,7 +243,7 @@ def build_cases(tier):
         C.append(Case("ShearX[%s]" % cn, F(G, "ShearX", val=np.zeros(ny), mesh_shape=shp)))
         C.append(Case("ShearY[%s]" % cn, F(G, "ShearY", val=np.zeros(ny), mesh_shape=shp)))
         C.append(Case("ShearZ[%s]" % cn, F(G, "ShearZ", val=np.zeros(ny), mesh_shape=shp)))
-    per_surface("RadiusComp", "geometry.radius_comp", "RadiusComp", names=["symL_2x3", "full_2x3", "symL_3x2"])
+    per_surface("RadiusComp", "geometry.radius_comp", "RadiusComp", names=["symL_2x3", "full_2x3", "symL_3x3"])
     per_surface("MonotonicConstraint", "geometry.monotonic_constraint", "MonotonicConstraint",
                 names=["symL_2x3", "full_2x3"], comp_kw={"var_name": "chord"})
     secs = multi_sections(3 if tier == "thorough" else 2)
@@ -527,9 +530,17 @@ def process(case, out, rep, obs, replay_fn, family_fn, max_replays_per_family=2)
             rep.not_reproduced.append({"id": o.id, "why": what})
 
 
+def approximated_cases(tier):
+    """components whose partials OpenMDAO derives by complex step through compute(): what the approximation reports is the
+    derivative unless compute() applies a non-analytic operation to a perturbed quantity (|u| discards the perturbation)"""
+    from props import c03
+
+    return [c for c in c03.extra_cases(tier) if not c.name.startswith(("CreateRHS", "AtmosComp"))]
+
+
 def run(tier, seed, only=None):
     rep = report.Report(PID, tier, seed)
-    cases = build_cases(tier)
+    cases = build_cases(tier) + approximated_cases(tier)
     if only:
         cases = [c for c in cases if any(s in c.name for s in only)]
     timeout = 20.0 if tier == "quick" else 60.0
@@ -604,7 +615,7 @@ def run(tier, seed, only=None):
 def replay_file(path):
     spec = json.load(open(path))
     tier = "thorough"
-    cases = {c.name: c for c in build_cases(tier)}
+    cases = {c.name: c for c in build_cases(tier) + approximated_cases(tier)}
     if spec.get("kernel"):
         bad, what = kernel_replay(spec["ob"], spec["env"])
         print(what)
